@@ -115,23 +115,26 @@ Qed.
 Theorem dispatch_unflagged_refuted : exists k, - 4096 <= k <= 4096 /\ rot_branch (ang_a k) <> Z.to_nat (k mod 4).
 Proof. exists (-4092). split; [lia|]. vm_compute. discriminate. Qed.
 
-(* ---- controlled rotations.
-   BEFORE repair 1e2cf08c5 (_CRn_.clifford tested theta with the pi/2 test of RX/RY/RZ) the flag accepted
-   angles for which the engine has no branch: *)
-Definition cr_flag_ok_v0_stmt : Prop :=
+(* ---- controlled rotations: _CRn_.clifford uses the pi/2 test of RX/RY/RZ, the engine has branches for
+   multiples of pi only, so the flag accepts angles for which the engine has no branch *)
+Definition cr_flag_ok_stmt : Prop :=
   forall theta : float, flag theta = true -> crot_branch theta <> None.
 
-Theorem cr_flag_v0_refuted : exists theta : float, flag theta = true /\ crot_branch theta = None.
+Theorem cr_flag_refuted : exists theta : float, flag theta = true /\ crot_branch theta = None.
 Proof. exists f_halfpi. split; vm_compute; reflexivity. Qed.
 
-Example crx_halfpi_v0_accepted_and_ignored :
+Corollary cr_flag_ok_false : ~ cr_flag_ok_stmt.
+Proof. intros H. destruct cr_flag_refuted as [th [Hf Hn]]. exact (H th Hf Hn). Qed.
+
+(* what the engine then does: nothing (apply_gate_clifford yields ANone) although the gate is accepted *)
+Example crx_halfpi_accepted_and_ignored :
   let g := mkGate cCRX [0%nat; 1%nat] [0%nat] [1%nat] (Some (PFloat f_halfpi)) (Some f_halfpi) false in
-  clifford_v0 g = true /\ apply_gate_clifford g = ANone.
+  clifford g = true /\ apply_gate_clifford g = ANone.
 Proof. split; vm_compute; reflexivity. Qed.
 
-(* AFTER the repair the flag tests theta / 2.  On the bounded sweep of the multiples of pi/2 (both
-   spellings) and of pi it accepts only angles for which the engine has a branch, and at fl(k*pi) the
-   branch is the one of k mod 4; odd multiples of pi/2 are refused. *)
+(* the candidate repair (test theta / 2; withdrawn, see ModelExec.clifford_at): on the bounded sweep of the
+   multiples of pi/2 (both spellings) and of pi it would accept only angles for which the engine has a branch,
+   at fl(k*pi) the branch of k mod 4, and it would refuse the odd multiples of pi/2 *)
 Definition cr_ok (k : Z) (theta : float) (unit_pi : bool) : bool :=
   negb (flag_half theta)
   || match crot_branch theta with
@@ -139,7 +142,7 @@ Definition cr_ok (k : Z) (theta : float) (unit_pi : bool) : bool :=
      | None => false
      end.
 
-Theorem cr_flag_ok_K : forall k, - 4096 <= k <= 4096 ->
+Theorem cr_half_flag_ok_K : forall k, - 4096 <= k <= 4096 ->
   (flag_half (ang_a k) = true -> crot_branch (ang_a k) <> None)
   /\ (flag_half (ang_b k) = true -> crot_branch (ang_b k) <> None)
   /\ (flag_half (ang_pi k) = true -> crot_branch (ang_pi k) = Some (Z.to_nat (k mod 4)))
@@ -162,13 +165,13 @@ Proof.
     now destruct (flag_half (ang_b k)).
 Qed.
 
-Example crx_after_repair :
+Example crx_with_half_flag :
   let g th := mkGate cCRX [0%nat; 1%nat] [0%nat] [1%nat] (Some (PFloat th)) (Some th) false in
-  clifford (g f_halfpi) = false /\ clifford (g f_pi) = true /\ apply_gate_clifford (g f_pi) <> ANone.
+  clifford_half (g f_halfpi) = false /\ clifford_half (g f_pi) = true /\ apply_gate_clifford (g f_pi) <> ANone.
 Proof. split; [|split]; vm_compute; try reflexivity. discriminate. Qed.
 
-(* the general soundness of the half-angle flag is still false (the float test of issue E): CRX(2.0) *)
-Theorem cr_flag_sound_refuted : exists theta : float, flag_half theta = true /\ crot_branch theta = None.
+(* even then the float test of issue E would remain: CRX(2.0) *)
+Theorem cr_half_flag_sound_refuted : exists theta : float, flag_half theta = true /\ crot_branch theta = None.
 Proof. exists 2%float. split; vm_compute; reflexivity. Qed.
 
 (* non-vacuity of the sweeps: some multiples are flagged, in every residue class *)
